@@ -69,7 +69,7 @@ def run(R):
                              dict(package=p["dir"], definitions=a, generated=p["generated_encoders"]))
     R.prove("Codec")
     if not R.quick:
-        R.coqchk("Codec", ["Codec.SchemasWf"])
+        R.coqchk("Codec", ["Codec.SchemasWf", "Codec.Theorems13", "Codec.LengthExact"])
     b = cc.build(R, pkgs)
     if b is None:
         return R.finish()
@@ -129,7 +129,7 @@ def run(R):
     return R.finish()
 
 
-def replay(R, path):
+def _replay(R, path):
     """re-run the input of a replay file (its trace_line) on the current tree and on the model"""
     body = json.load(open(path))
     line = body.get("trace_line")
@@ -158,3 +158,14 @@ def replay(R, path):
     analyse(R, lines, out, "replay")
     R.add_cases(len(lines), 0, [line[:300]])
     return R.finish()
+
+
+def replay(R, path):
+    """replay must not clobber the evidence of the last real run"""
+    ev = os.path.join(vlib.EVID, R.pid + ".json")
+    old = open(ev, "rb").read() if os.path.exists(ev) else None
+    try:
+        return _replay(R, path)
+    finally:
+        if old is not None:
+            open(ev, "wb").write(old)
